@@ -35,6 +35,8 @@ func NewUtxosRegistry(settings application.ProtocolSettingsProvider, initialUtxo
 }
 
 func (registry *UtxosRegistry) CalculateFee(transaction *ledger.Transaction, timestamp int64) (uint64, error) {
+	registry.mutex.RLock()
+	defer registry.mutex.RUnlock()
 	var inputsValue uint64
 	var outputsValue uint64
 	for _, input := range transaction.Inputs() {
@@ -153,6 +155,8 @@ func (registry *UtxosRegistry) UpdateUtxos(transactions []*ledger.Transaction, t
 }
 
 func (registry *UtxosRegistry) Utxos(address string) []*ledger.Utxo {
+	registry.mutex.RLock()
+	defer registry.mutex.RUnlock()
 	utxos, ok := registry.utxosByAddress[address]
 	if ok {
 		return utxos
